@@ -56,7 +56,11 @@ def handle (args : List String) (impl : String) : String × String :=
         if impl = "unavailable" then ("unavailable", "any")
         -- rustc's own lexer rejected the token (e.g. `0o8`): the macro's outcome is not observable; the property
         -- (compile-time error / pass-through) is still judged
-        else if impl.startsWith "err rustc" then ("skip", litPred src impl)
+        else if impl.startsWith "err rustc" then
+          -- (a passed-through token that is not valid Rust on its own is rejected by rustc afterwards: not judged)
+          match shape src with
+          | .ordinary | .hexB => ("skip", "any")
+          | _ => ("skip", litPred src impl)
         else (outExp (transformLiteral src), litPred src impl)
     else ("bad-op", "bad-op")
   | ["rt", bs, rs, x] =>
